@@ -80,7 +80,7 @@ Lemma iso_ok_pair c1 c2 d1 d2 b r :
   find_row T [c1; c2] = Some r -> conforms_row r b = true ->
   is_ascii_digit d1 = true -> is_ascii_digit d2 = true ->
   (iso_ok T (c1 :: c2 :: d1 :: d2 :: b) = true <-> [d1; d2] = iso_check_digits [c1; c2] b).
-Proof.
+Proof using All.
   intros Er Hc D1 D2. unfold iso_ok. rewrite Er, D1, D2, Hc. cbn [andb].
   change [c1; c2; d1; d2] with ([c1; c2] ++ [d1; d2]). rewrite app_assoc, iso_num_from, iso_from_app.
   rewrite iso_from_digits by assumption. rewrite <- iso_num_from.
